@@ -1146,7 +1146,7 @@ def build_struct(target_host: str, banner: Optional['Banner'], kex: Optional['SS
                 'hash_alg': 'MD5',
                 'hash': fp.md5[4:]
             })
-    else:
+    elif pkm is not None:  # Only describe SSH1 algorithms when an SSH1 public key message was actually received.
         pkm_supported_ciphers = None
         pkm_supported_authentications = None
         pkm_fp = None
